@@ -13,6 +13,10 @@ open Xs.Conv (AllDigits charVal AllXsdSpace Tight strip_xsd_pad)
 
 /-! ### the two digit vocabularies agree -/
 
+/-- a decidable way to show `AllDigits` of a literal -/
+theorem allDigits_of_all {s : Str} (h : s.all isAsciiDigit = true) : AllDigits s := by
+  intro c hc; exact List.all_eq_true.1 h c hc
+
 theorem allD_of {s : Str} (h : AllDigits s) : AllD s := h
 
 theorem digitsNat_eq_dval (s : Str) : digitsNat s = dval s := rfl
